@@ -18,6 +18,15 @@ CLAIMED = {
         "Lean 4 proof over hand-written model + differential correspondence + exact oracle search", "DESIGN.md §6 C14"),
 }
 
+CLAIMED["C01"] = (
+    "Lean 4 theorems for every pipeline over an arbitrary transform type (only law assumed: `a|b` evaluates left-then-right): forward "
+    "transform = fold of the steps, downstream get_transform = chain of the intervening steps, upstream = their inverses in reverse order, "
+    "self -> None, unknown frame -> error, split through an intermediate frame, forward = transform between the end frames, fix_inputs "
+    "evaluates as the original with inputs held. Tied to gwcs/wcs.py by an exact correspondence (dyadic values) over generated pipelines "
+    "of 1..6 steps / arities 1..4 / every ordered frame pair by name and by object, plus an independent hand-composition oracle.",
+    "Trusted: Lean kernel; standard axioms; correspondence harness; astropy CompoundModel / fix_inputs evaluation (modelled, exercised).",
+    "Lean 4 proof over hand-written generic model + differential correspondence + oracle search", "DESIGN.md §6 C01")
+
 NOT_YET = "check not built yet in this round; will be claimed once its Lean model, theorems and correspondence run green"
 
 
